@@ -74,6 +74,34 @@ PROPS['C17'] = dict(
     explanation='Theorem: the membership after a merge is, per id, the lexicographic max of (generation, logical clock) of the two views, for all options; commutativity / associativity / idempotence, no removal, no regress are corollaries; epoch/timestamp/protocol never decrease; changed=false implies the member table is untouched.',
 )
 
+CODEC_RULE = ('codec: for every registered message with a schema, seeded random values built from the real Go structs (field values from {zero, empty, one element, extreme, random}) are '
+    'encoded by the real Writer.WriteMessage and by the model (bytes compared), decoded by both (values compared), wrapped in envelopes with every sender/receiver combination incl. absent ones; '
+    'then every truncation and single-byte corruption (bit flip / 0xFF / random) of those encodings, and random byte strings with hostile length fields, are decoded by both and the outcome class '
+    '(ok value / unknown name / err) compared; the real decoder runs under recover, a 6 GiB address-space limit (a fatal OOM leaves the input behind) and a TotalAlloc meter; '
+    'Writer.Write is called on every supported and unsupported Go kind in a child process (stack overflow is fatal in Go). Non-trivial = a value that encodes; distinct = distinct op lists.')
+
+PROPS['C12'] = dict(
+    modules=['Vivid.Props.C12', 'Vivid.Tie.Registry'],
+    gens=['registry'],
+    engines=[dict(name='codec', only=r'ROUND-TRIP', must_hit=['enc:clusterGossip', 'enc:clusterJoinRequest', 'enc:Error', 'enc:PongMessage', 'corrupted:ok', 'corrupted:err', 'truncated:err', 'impl-roundtrip:OnKill'])],
+    rule=CODEC_RULE,
+    trusted_base=COMMON_TRUST + ['token <-> Go struct converters in harness/engines/codec.go (one per schema)', 'reflect semantics of the reflective fallback: exercised through Writer.Write on a fixed list of kinds, not modelled in general'],
+    assumptions=['WT guard = enc returns some: lengths/counts < 2^32, integers within their width, Generation/counts within int32, version-vector entries valid; canon: nil vs empty map, time.Time as UnixNano, nil member states dropped, Error.err chain not serialised',
+                 'OnKill / OnKilled / PipeResult / SchedulerMessage / clusterSingletonForwardedMessage have no Lean schema (interface-typed or nested-arbitrary payload): tied by the implementation-side round-trip monitor only'],
+    explanation='Generic structural-induction round-trip theorem over schema combinators (reader consumes exactly what the writer produced), instantiated by WriteMessage/ReadMessage framing and the envelope; registry tie: every registered name has a schema or is on the explicit unmodelled list.',
+)
+
+PROPS['C13'] = dict(
+    modules=['Vivid.Props.C13', 'Vivid.Tie.Registry'],
+    gens=['registry'],
+    engines=[dict(name='codec', only=r'ALLOC|PANIC|FATAL|panic', must_hit=['truncated:err', 'corrupted:err', 'corrupted:ok', 'random:err', 'write:ok', 'write:err', 'memcap:65536'])],
+    rule=CODEC_RULE,
+    trusted_base=COMMON_TRUST + ['runtime.MemStats.TotalAlloc as the allocation observation (budget 64 B per input byte + 16 MiB for the codec\'s own 65536-entry caps)'],
+    assumptions=['no panic / no loop / no stack overflow are facts about the Go runtime: observed by the differential run (recover, child process), not provable in the model, whose decoder is total by construction',
+                 'allocation theorem covers successful decodes of capped schemas; allocation on failing decodes is observed by the meter'],
+    explanation='Model decoder is a total structurally-recursive function with outcomes ok/err; theorems: prefix consumption and 4*alloc <= maxCap*consumed for capped schemas, every registered schema is capped (after the fix: commit); tie: malformed-input differential with outcome classes.',
+)
+
 # Text of level_claimed per property (MANIFEST); NOT_APPLICABLE: properties not claimed, with reason.
 LEVEL_TEXT = {}
 NOT_APPLICABLE = {}
